@@ -81,13 +81,6 @@ func vxVal(name string) interface{} {
 	return xsync.VxInt(name)
 }
 
-func vxNewCache(tableLen int, defExp time.Duration, ec EvictedCallback) *xsyncMap {
-	c := &xsyncMap{items: xsync.VxNewMap(tableLen, tableLen), stop: make(chan struct{})}
-	c.defaultExpiration.Store(defExp)
-	c.evictedCallback.Store(ec)
-	return c
-}
-
 const (
 	opSet = iota
 	opSetDefault
@@ -107,17 +100,17 @@ const (
 )
 
 // vxCoupled: implementation and reference agree on key k from instant now on.
+// genof
 func vxCoupled(c *xsyncMap, r *vxRef, k string, now int64) bool {
 	rv, re, rok := r.get(k, now)
-	iv, ok := c.items.Load(k)
+	iv, ie, ok := vxPeek(c, k)
 	if !ok {
 		return !rok
 	}
-	it := iv.(item)
-	if it.e > 0 && now > it.e {
+	if ie > 0 && now > ie {
 		return !rok
 	}
-	return rok && it.v == rv && it.e == re
+	return rok && iv == rv && ie == re
 }
 
 // VxH_C01_step: one call of method op from an arbitrary two-entry pre-state,
@@ -134,13 +127,13 @@ func VxH_C01_step(op int) {
 	if xsync.VxBool("has1") {
 		v, e := vxVal("pv1"), xsync.VxI64("pe1")
 		xsync.VxAssume(e >= 0)
-		c.items.Store(k1, item{v, e})
+		vxPut(c, k1, v, e)
 		r.put(k1, v, e)
 	}
 	if xsync.VxBool("has2") {
 		v, e := vxVal("pv2"), xsync.VxI64("pe2")
 		xsync.VxAssume(e >= 0)
-		c.items.Store(k2, item{v, e})
+		vxPut(c, k2, v, e)
 		r.put(k2, v, e)
 	}
 	k := xsync.VxStr("k")
@@ -256,10 +249,10 @@ func VxH_C01_step(op int) {
 	case opDeleteExpired:
 		c.DeleteExpired()
 		// no logical change: expired entries were invisible already
-		_, ok1 := c.items.Load(k1)
+		_, _, ok1 := vxPeek(c, k1)
 		_, _, rok1 := r.get(k1, now)
 		xsync.VxAssert(ok1 == rok1, "DeleteExpired: physically present afterwards iff unexpired (k1)")
-		_, ok2 := c.items.Load(k2)
+		_, _, ok2 := vxPeek(c, k2)
 		_, _, rok2 := r.get(k2, now)
 		xsync.VxAssert(ok2 == rok2, "DeleteExpired: physically present afterwards iff unexpired (k2)")
 	case opClear:
@@ -267,11 +260,11 @@ func VxH_C01_step(op int) {
 		r.del(k1)
 		r.del(k2)
 	}
-	pv, pok := c.items.Load(k)
+	pv, pe, pok := vxPeek(c, k)
 	xsync.VxObserve("post.ok", pok)
 	if pok {
-		xsync.VxObserve("post.v", pv.(item).v)
-		xsync.VxObserve("post.e", pv.(item).e)
+		xsync.VxObserve("post.v", pv)
+		xsync.VxObserve("post.e", pe)
 	}
 	xsync.VxAssert(vxCoupled(c, r, k1, now), "post-state agrees with reference on k1")
 	xsync.VxAssert(vxCoupled(c, r, k2, now), "post-state agrees with reference on k2")
